@@ -63,6 +63,13 @@ func (c *Ctx) Logf(format string, a ...any) {
 	}
 }
 
+// Debugf adds a line to the trace only (never hashed): diagnostics that exist only when tracing.
+func (c *Ctx) Debugf(format string, a ...any) {
+	if c.Trace {
+		c.log = append(c.log, fmt.Sprintf(format, a...))
+	}
+}
+
 func (c *Ctx) Count(name string) { c.Stats[name]++ }
 
 func (c *Ctx) State(fp string) { c.States[fp] = struct{}{} }
@@ -564,6 +571,9 @@ func replayMain(t *testing.T, h *Harness) {
 		res["class"] = rr.Violation.Class()
 	}
 	res["log_tail"] = tail(rr.Log, 60)
+	if f := os.Getenv("SIM_FULL_LOG"); f != "" {
+		os.WriteFile(f, []byte(strings.Join(rr.Log, "\n")), 0o644)
+	}
 	writeJSON(os.Getenv("SIM_OUT"), res)
 }
 
